@@ -18,6 +18,7 @@ A run does
 
 from __future__ import annotations
 
+import collections
 import copy
 import json
 import os
@@ -782,6 +783,28 @@ def _strip_types(m):
     return m2.SerializeToString()
 
 
+def body_arg_oracle(run):
+    """Types declared for Scan body arguments (recorded while the programs were GENERATED, i.e. also for calls the constructor then
+    rejected) against the shape the runtime hands the body: rank and every constant extent must agree."""
+    seen, hist = set(), collections.Counter()
+    for o in P.BODY_ARG_OBS:
+        k = json.dumps(o, sort_keys=True)
+        if k in seen:
+            continue
+        seen.add(k)
+        hist[f"axis={o['axis']}"] += 1
+        dshape, want = o["declared"][2], o["runtime_shape"]
+        if dshape is None:
+            continue
+        bad = len(dshape) != len(want) or any(isinstance(d, int) and w is not None and d != w for d, w in zip(dshape, want))
+        if bad or o["declared"][1] != o["operand"][1]:
+            run.fail("impl", f"C06/scan/body-argument-type-unsound/axis={o['axis']}",
+                     f"Scan (opset {o['opset']}, scan_input_axes=[{o['axis']}]) declares {o['declared']} for the scanned element of {o['operand']}, "
+                     f"the runtime hands the body shape {want}", o)
+    P.BODY_ARG_OBS.clear()
+    return {"distinct": len(seen), "by_axis": dict(hist)}
+
+
 def run(run: Run) -> int:
     run.check_theorems(PROPS, CONE, thorough_coqchk=(run.tier == "thorough"))
     quick = run.tier == "quick"
@@ -805,6 +828,7 @@ def run(run: Run) -> int:
     for _ in range(1500 if quick else 8000):
         p = P.gen_program(rng, rng.choice([4, 6, 8, 10]), rng.choice([17, 17, 18, 19, 21]))
         progs.append(P.grow_program(rng, p, opmods))
+    cov["scan_body_argument_types_checked"] = body_arg_oracle(run)
     pstats, n_loop2, n_loop_mism2 = run_programs(run, pool, progs, cov, "random")
     cov["phase_wall_s"]["random_programs"] = round(time.time() - t, 1)
     n_fixed = fixed_scenarios(run)
